@@ -289,6 +289,8 @@ proof! {
 /// number of path hashes in the proof of this query
 const PLEN: usize = parse_env(option_env!("VH_PLEN"), 1) as usize;
 const NONE: usize = usize::MAX;
+/// position this query is about (>= SIZE: every position)
+const FPOS: usize = parse_env(option_env!("VH_POS"), 1000) as usize;
 
 /// explicit tree of the NL-leaf MMR by the append rule: (parent, node is a right child)
 const fn tree() -> ([usize; SIZE], [bool; SIZE]) {
@@ -321,8 +323,11 @@ const IS_RIGHT: [bool; SIZE] = tree().1;
 /// hash per level up to the peak (left child first, parent position as index), then with the
 /// bagged peaks to the right (if any; index = mmr size), then with each peak to the left, nearest
 /// first. The WHOLE path is consumed; the result is compared with the root.
-fn fold(e: &Elem, pos: usize, path: &[Hash]) -> Hash {
+fn fold(e: &Elem, pos: usize, path: &[Hash]) -> [Hash; PLEN + 1] {
+	// out[i] = running hash after consuming i path hashes
+	let mut out = [Hash::default(); PLEN + 1];
 	let mut h = e.hash_with_index(pos as u64);
+	out[0] = h;
 	let mut cur = pos;
 	let mut i = 0;
 	while i < path.len() && PARENT[cur] != NONE {
@@ -334,19 +339,22 @@ fn fold(e: &Elem, pos: usize, path: &[Hash]) -> Hash {
 		};
 		cur = p;
 		i += 1;
+		out[i] = h;
 	}
 	if i < path.len() {
 		// cur is a peak
 		if cur != SIZE - 1 {
 			h = (h, path[i]).hash_with_index(SIZE as u64);
 			i += 1;
+			out[i] = h;
 		}
 		while i < path.len() {
 			h = (path[i], h).hash_with_index(SIZE as u64);
 			i += 1;
+			out[i] = h;
 		}
 	}
-	h
+	out
 }
 
 proof! {
@@ -358,7 +366,10 @@ proof! {
 		// fold being injective, i.e. to collision resistance of the hash, which is not grin's code.
 		let e = Elem(nd::any());
 		let r: [u8; 32] = nd::any();
-		let root = Hash::from_vec(&r);
+		// the root is arbitrary (sel = 0) or, so that a counterexample found under the hash model
+		// replays against real blake2b, one of the running hashes of the fold (sel = k + 1)
+		let sel: u8 = nd::any();
+		nd::assume(sel as usize <= PLEN + 1);
 		let mut path: Vec<Hash> = Vec::with_capacity(PLEN + 1);
 		let mut i = 0;
 		while i < PLEN {
@@ -366,10 +377,21 @@ proof! {
 			path.push(Hash::from_vec(&x));
 			i += 1;
 		}
-		let mut pos = 0usize;
-		while pos < SIZE {
+		// VH_POS: one position per query (SIZE = all positions in one query)
+		let mut pos = if FPOS < SIZE { FPOS } else { 0 };
+		let end = if FPOS < SIZE { FPOS + 1 } else { SIZE };
+		while pos < end {
 			let proof = MerkleProof { mmr_size: SIZE as u64, path: path.clone() };
-			let expected = fold(&e, pos, &path);
+			let inter = fold(&e, pos, &path);
+			let expected = inter[PLEN];
+			let mut root = Hash::from_vec(&r);
+			let mut k = 0;
+			while k <= PLEN {
+				if sel as usize == k + 1 {
+					root = inter[k];
+				}
+				k += 1;
+			}
 			let res = proof.verify(root, &e, pos as u64);
 			check!(res.is_ok() == (expected == root), "verify accepts exactly when the defining fold over the whole path yields the root");
 			cover!(res.is_ok(), "some proof is accepted");
